@@ -1,14 +1,20 @@
 #!/bin/bash
 # usage: tools/verify_mutant.sh <worktree>  -- confirms a sub-agent's mutant: demo fails with patch, passes without, existing suite passes with
+# a first line `CRATE=darling_core` in _mutant/notes.txt puts the demonstration into core/tests instead of tests
 wt="$1"; cd "$wt" || exit 3
 export CARGO_NET_OFFLINE=true
+tag=$(basename "$wt")
 git checkout -q -- . ; git clean -fdq -e _mutant -e target
-cp _mutant/zz_mutant_demo.rs tests/zz_mutant_demo.rs
-cargo test --offline --test zz_mutant_demo > /tmp/vm_clean.log 2>&1; rc_clean=$?
+if head -1 _mutant/notes.txt 2>/dev/null | grep -q "CRATE=darling_core"; then dst=core/tests; pk="-p darling_core"; else dst=tests; pk="-p darling"; fi
+mkdir -p $dst
+cp _mutant/zz_mutant_demo.rs $dst/zz_mutant_demo.rs
+cargo test --offline $pk --test zz_mutant_demo > /tmp/vm_clean_$tag.log 2>&1; rc_clean=$?
 git apply _mutant/patch.diff || { echo "patch does not apply"; exit 3; }
-cargo test --offline --test zz_mutant_demo > /tmp/vm_mut.log 2>&1; rc_mut=$?
-rm tests/zz_mutant_demo.rs
-cargo test --workspace --offline --no-fail-fast > /tmp/vm_suite.log 2>&1; rc_suite=$?
-echo "demo clean rc=$rc_clean (want 0); demo mutant rc=$rc_mut (want !=0); suite with mutant rc=$rc_suite (want 0)"
-grep -E "^test result" /tmp/vm_mut.log | head -3
-grep -E "^test result: FAILED|^error" /tmp/vm_suite.log | head
+cargo test --offline $pk --test zz_mutant_demo > /tmp/vm_mut_$tag.log 2>&1; rc_mut=$?
+rm $dst/zz_mutant_demo.rs
+cargo test --workspace --offline --no-fail-fast > /tmp/vm_suite_$tag.log 2>&1; rc_suite=$?
+npass=$(grep -E "^test result" /tmp/vm_suite_$tag.log | sed -E 's/.* ([0-9]+) passed.*/\1/' | paste -sd+ | bc)
+echo "demo clean rc=$rc_clean (want 0); demo mutant rc=$rc_mut (want !=0); suite with mutant rc=$rc_suite (want 0), $npass tests passed"
+grep -E "^test result" /tmp/vm_mut_$tag.log | head -3
+grep -E "^test result: FAILED|^error" /tmp/vm_suite_$tag.log | head
+git checkout -q -- .
